@@ -26,20 +26,28 @@ import (
 type params struct {
 	depth   int
 	workers int
+	rehold  bool // deployments can become slow again after they finished
+	prereg  bool // WorkerCount operators and source runners register before the enumerated events
 }
 
 const deadline = 5 * time.Second
 
 func Run(k *report.Check) {
-	k.Rule = "explicit-state search over the real jobs.Job with scripted operator / source-runner nodes, a harness clock and an in-memory store: events = register / deregister / heartbeat of operator i or source runner i (i<WorkerCount+1, so one standby of each kind), clock jump past the heartbeat deadline, checkpoint tick, acknowledgement of the pending checkpoint by a node, a node failing its next Deploy; the job runs to quiescence after every event. Invariants on every call the job makes: Deploy / StartCheckpoint / AssignSplits only reach nodes that are registered and alive, every Deploy names exactly WorkerCount operators and runners, after a member is lost no further call reaches that assembly, a redeploy hands every operator the latest completed checkpoint. Bounded liveness from every reached state: register enough nodes, tick, acknowledge -> a new checkpoint with a larger id completes. non-trivial = distinct states reached after at least one loss of an assembly member"
+	k.Rule = "explicit-state search over the real jobs.Job with scripted operator / source-runner nodes, a harness clock and an in-memory store: events = register / deregister / heartbeat of operator i or source runner i (i<WorkerCount+1, so one standby of each kind), clock jump past the heartbeat deadline, checkpoint tick, acknowledgement of the pending checkpoint by a node, a node failing its next Deploy, Deploy calls becoming slow (they stay in flight, so that every other event can strike during deployment) and finishing; the job runs to quiescence after every event. Invariants on every call the job makes: Deploy / StartCheckpoint / AssignSplits only reach nodes that are registered and alive, every Deploy names exactly WorkerCount operators and runners, after a member is lost no further call reaches that assembly, a redeploy hands every operator the latest completed checkpoint. Bounded liveness from every reached state: register enough nodes, tick, acknowledge -> a new checkpoint with a larger id completes. non-trivial = distinct states reached after at least one loss of an assembly member"
 	k.Assumptions = []string{"nodes are scripted (real workers are the cluster parts' subject)", "job goroutines run to quiescence after every event with the default schedule"}
 	k.Budget(120, 1200)
 	for _, w := range []int{1, 2}[:k.Pick(2, 2)] {
-		d := k.Pick(5, 7)
+		d := k.Pick(4, 7)
 		if w == 2 {
-			d = k.Pick(4, 6)
+			d = k.Pick(3, 6)
 		}
-		k.ExploreSched(fmt.Sprintf("job/workers=%d,d=%d", w, d), mc.Config{Bound: 0}, params{depth: d, workers: w}, body)
+		if w == 1 || k.Pick(0, 1) == 1 {
+			k.ExploreSched(fmt.Sprintf("job/workers=%d,d=%d", w, d), mc.Config{Bound: 0}, params{depth: d, workers: w, rehold: k.Pick(0, 1) == 1}, body)
+		}
+		if w == 2 {
+			d = k.Pick(3, 5)
+			k.ExploreSched(fmt.Sprintf("job/workers=2,assembled,d=%d", d), mc.Config{Bound: 0}, params{depth: d, workers: w, rehold: k.Pick(0, 1) == 1, prereg: true}, body)
+		}
 	}
 }
 
@@ -60,6 +68,10 @@ type world struct {
 	asmOps  []string // members of the assembly of the last deploy
 	asmSRs  []string
 	lost    bool   // a member of the current assembly was lost since its deploy
+	lostM   map[string]bool
+	gen     map[string]int // processes started in a node slot so far - 1
+	down    map[string]bool // the slot's process deregistered
+	finish  bool   // the deployment that was in flight when the member was lost is just completing
 	losses  int
 	done    uint64 // latest completed checkpoint (model)
 	errs    []string
@@ -104,7 +116,7 @@ func (w *world) judge(after string) {
 					w.failf("after %s: operator %s is deployed from checkpoints %v, the latest completed checkpoint is %v", after, call.Target, call.Ckpts, want)
 				}
 				w.asmOps, w.asmSRs = call.Ops, call.SRs
-				w.lost = false
+				w.lost, w.lostM = false, map[string]bool{}
 				w.pending, w.acked = 0, map[string]bool{}
 			} else if len(call.Ops) != w.p.workers {
 				w.failf("after %s: Deploy to %s names %d operators, WorkerCount is %d", after, call.Target, len(call.Ops), w.p.workers)
@@ -118,10 +130,10 @@ func (w *world) judge(after string) {
 				}
 			}
 		case "start-checkpoint", "assign":
-			if !w.alive(call.Target) {
+			if !w.alive(call.Target) && !(w.finish && call.Kind == "assign") {
 				w.failf("after %s: %s sent to %s, which is not registered and alive", after, call.Kind, call.Target)
 			}
-			if w.lost {
+			if w.lost && !(w.finish && call.Kind == "assign") {
 				w.failf("after %s: %s sent to %s although a member of its assembly was lost and no new assembly was deployed", after, call.Kind, call.Target)
 			}
 			if call.Kind == "start-checkpoint" {
@@ -135,13 +147,26 @@ func (w *world) judge(after string) {
 		}
 	}
 	w.seen = len(w.net.Calls)
+	w.finish = false
 	// losses
 	for _, m := range append(slices.Clone(w.asmOps), w.asmSRs...) {
-		if !w.alive(m) && !w.lost {
-			w.lost = true
-			w.losses++
+		if !w.alive(m) && !w.lostM[m] {
+			if len(w.lostM) == 0 {
+				w.losses++
+			}
+			w.lostM[m] = true
 		}
 	}
+	w.lost = len(w.lostM) > 0
+}
+
+// id is the node id of the process currently (or last) running in a slot: like the real workers
+// (ksuid per process) a process started after a deregistration has a fresh id.
+func (w *world) id(slot string) string {
+	if g := w.gen[slot]; g > 0 {
+		return fmt.Sprintf("%s.%d", slot, g)
+	}
+	return slot
 }
 
 func (w *world) stateKey() string {
@@ -161,18 +186,21 @@ func (w *world) stateKey() string {
 		ack = append(ack, id)
 	}
 	sort.Strings(ack)
-	return fmt.Sprint(w.p.workers, "|", w.job.VerifDump(), "|", nodes, fd, w.clock.Labels(), w.pending, ack, w.lost, w.done, w.asmOps, w.asmSRs)
+	return fmt.Sprint(w.p.workers, w.net.Hold, w.net.Held(), w.gen, w.down, "|", w.job.VerifDump(), "|", nodes, fd, w.clock.Labels(), w.pending, ack, w.lost, w.done, w.asmOps, w.asmSRs)
 }
 
 func body(c *mc.Ctx) {
 	p := c.Param.(params)
-	w := &world{c: c, p: p, clock: jobh.NewClock(), net: jobh.NewNet(), loc: jobh.NewMemLoc(), src: &jobh.FakeSource{}, hb: map[string]time.Time{}, reg: map[string]bool{}, purged: map[string]bool{}, acked: map[string]bool{}}
+	w := &world{c: c, p: p, clock: jobh.NewClock(), net: jobh.NewNet(), loc: jobh.NewMemLoc(), src: &jobh.FakeSource{}, hb: map[string]time.Time{}, reg: map[string]bool{}, purged: map[string]bool{}, acked: map[string]bool{}, lostM: map[string]bool{}, gen: map[string]int{}, down: map[string]bool{}}
+	w.net.Hold = c.Choose(2) == 1
+	if w.net.Hold {
+		c.Op("deploymentsAreSlow")
+	}
 	nNodes := p.workers + 1 // one standby of each kind
 	ops := make([]string, nNodes)
 	srs := make([]string, nNodes)
 	for i := range ops {
 		ops[i], srs[i] = fmt.Sprintf("op%d", i), fmt.Sprintf("sr%d", i)
-		w.loc.Files[ops[i]+"/checkpoints"] = []byte(`{"checkpoints":[{"id":1,"wals":[],"levels":[]}]}`)
 	}
 	var jobPanic string
 	schedh.Run(c, schedh.Opts{MaxSteps: 60000, NoAdvanceAlt: true, MaxAdvances: 200}, func() {
@@ -185,7 +213,19 @@ func body(c *mc.Ctx) {
 			panic(fmt.Sprintf("mc: harness: jobs.New: %v", err))
 		}
 		w.job = job
-		register := func(id string) {
+		register := func(slot string) {
+			if w.down[slot] {
+				w.gen[slot]++
+				delete(w.down, slot)
+			}
+			id := w.id(slot)
+			if w.purged[id] && w.net.Held() > 0 {
+				// the same process, which has been sent the deployment that is still in flight,
+				// heartbeats again: the assembly being deployed has not lost it
+				delete(w.lostM, id)
+				w.lost = len(w.lostM) > 0
+			}
+			w.loc.Files[id+"/checkpoints"] = []byte(`{"checkpoints":[{"id":1,"wals":[],"levels":[]}]}`)
 			w.reg[id], w.hb[id] = true, w.clock.Now()
 			delete(w.purged, id)
 			w.evaluate()
@@ -215,6 +255,16 @@ func body(c *mc.Ctx) {
 			w.done, w.pending, w.acked = w.pending, 0, map[string]bool{}
 		}
 		nodes := append(slices.Clone(ops), srs...)
+		if p.prereg {
+			for i := 0; i < p.workers; i++ {
+				for _, slot := range []string{ops[i], srs[i]} {
+					register(slot)
+					c.Op("register(" + slot + ")")
+					w.quiesce()
+					w.judge("register(" + slot + ")")
+				}
+			}
+		}
 		for step := 0; step < p.depth; step++ {
 			// the dump takes the job's locks, which are scheduling points: it must be computed on
 			// every execution alike, replayed prefix or not
@@ -222,7 +272,7 @@ func body(c *mc.Ctx) {
 			if c.Fresh() && c.Seen(key, p.depth-step) {
 				return
 			}
-			nEv := 1 + 4*len(nodes) + 2
+			nEv := 1 + 4*len(nodes) + 4
 			ev := c.Choose(nEv)
 			what := ""
 			switch {
@@ -230,16 +280,19 @@ func body(c *mc.Ctx) {
 				step = p.depth
 				continue
 			case ev <= len(nodes): // register / heartbeat
-				id := nodes[ev-1]
-				what = "register(" + id + ")"
-				register(id)
+				register(nodes[ev-1])
+				what = "register(" + w.id(nodes[ev-1]) + ")"
 			case ev <= 2*len(nodes): // deregister
-				id := nodes[ev-1-len(nodes)]
+				slot := nodes[ev-1-len(nodes)]
+				id := w.id(slot)
 				if !w.reg[id] {
 					continue
 				}
 				what = "deregister(" + id + ")"
-				w.reg[id] = false
+				delete(w.reg, id)
+				delete(w.hb, id)
+				delete(w.purged, id)
+				w.down[slot] = true
 				w.evaluate()
 				if strings.HasPrefix(id, "op") {
 					job.HandleDeregisterOperator(&jobpb.NodeIdentity{Id: id, Host: "h"})
@@ -247,7 +300,7 @@ func body(c *mc.Ctx) {
 					job.HandleDeregisterSourceRunner(&jobpb.NodeIdentity{Id: id, Host: "h"})
 				}
 			case ev <= 3*len(nodes): // acknowledge the pending checkpoint
-				id := nodes[ev-1-2*len(nodes)]
+				id := w.id(nodes[ev-1-2*len(nodes)])
 				if w.pending == 0 || !w.alive(id) || w.acked[id] || !slices.Contains(append(slices.Clone(w.asmOps), w.asmSRs...), id) {
 					continue
 				}
@@ -258,7 +311,7 @@ func body(c *mc.Ctx) {
 				w.acked[id] = true
 				complete()
 			case ev <= 4*len(nodes): // the node's next Deploy fails
-				id := nodes[ev-1-3*len(nodes)]
+				id := w.id(nodes[ev-1-3*len(nodes)])
 				if w.net.FailDeploy[id] {
 					continue
 				}
@@ -267,6 +320,23 @@ func body(c *mc.Ctx) {
 			case ev == 4*len(nodes)+1:
 				what = "clock+6s"
 				w.clock.Advance(6 * time.Second)
+			case ev == 4*len(nodes)+3:
+				// from now on Deploy calls stay in flight until released
+				if w.net.Hold || !p.rehold {
+					continue
+				}
+				what = "deploymentsAreSlow"
+				w.net.Hold = true
+			case ev == 4*len(nodes)+4:
+				if !w.net.Hold {
+					continue
+				}
+				what = fmt.Sprintf("deploymentsFinish(%d in flight)", w.net.Held())
+				// the splits the job assigns while it completes a deployment that was already in
+				// flight when a member was lost are not held against it: the job is serial and can
+				// only react once the deployment returned
+				w.finish = w.lost
+				w.net.Release()
 			default:
 				if !w.clock.Active("checkpointing") {
 					continue
@@ -288,12 +358,24 @@ func body(c *mc.Ctx) {
 		// bounded liveness: enough fresh registrations, a tick, all acknowledgements
 		// -> a checkpoint with a larger id completes
 		before := w.done
-		c.Op("recover: register all, tick, acknowledge")
-		w.clock.Advance(time.Second)
-		for _, id := range nodes {
-			register(id)
+		c.Op("recover: deployments finish, register all, tick, acknowledge")
+		if w.net.Hold {
+			w.finish = w.lost
+			w.net.Release()
 			w.quiesce()
-			w.judge("recover:register(" + id + ")")
+			w.judge("recover:deploymentsFinish")
+		}
+		if w.clock.Active("checkpointing") {
+			// whatever the job still does with its current assembly is judged too
+			w.clock.Tick("checkpointing")
+			w.quiesce()
+			w.judge("recover:tick-before-registrations")
+		}
+		w.clock.Advance(time.Second)
+		for _, slot := range nodes {
+			register(slot)
+			w.quiesce()
+			w.judge("recover:register(" + w.id(slot) + ")")
 		}
 		for try := 0; try < 3 && w.done == before; try++ {
 			if !w.clock.Active("checkpointing") {
